@@ -95,11 +95,15 @@ func c05Run(t *testing.T, c c05Case) (kind, what string) {
 			m := msource.New()
 			m.PsyncReply = func(p msource.Psync) string { return "" } // the harness writes the whole answer itself
 			dialed := 0
+			// the reconnect (which takes the tool's 32 MiB + 8 MiB buffers again) is judged for the
+			// deliveries in at most two pieces; what it asks for does not depend on the fragmentation
+			withReconnect := len(c.Cuts) <= 1
 			hook.SetDialHook(func(network, addr string) (net.Conn, error, bool) {
 				dialed++
-				if dialed > 1 {
-					runtime.Goexit() // reconnect loop after the tear-down cut
+				if dialed > 2 || (dialed > 1 && !withReconnect) {
+					runtime.Goexit() // reconnect loop after the (second) tear-down cut
 				}
+				// dialed == 2: the reconnect after the tear-down cut; its PSYNC is recorded and judged
 				cc, sc := memconn.Pair("source")
 				go m.Serve(sc)
 				return cc, nil, true
@@ -282,13 +286,43 @@ func c05Run(t *testing.T, c c05Case) (kind, what string) {
 					bad("ack-after-handoff", fmt.Sprintf("announced offset %d and %d bytes of commands received, but the acknowledged offset is %d", base, after, last))
 				}
 			}
-			// tear down
+			// the source connection breaks: the tool reconnects and must ask for the continuation of
+			// what the source announced (its run id) at announced offset + bytes received + 1
+			judgeReconnect := kind == "" && !refused && withReconnect
 			for i := 0; i < m.NumConns(); i++ {
 				m.Conn(i).(*memconn.Conn).Cut()
 			}
 			time.Sleep(1100 * time.Millisecond)
 			synctest.Wait()
 			time.Sleep(1100 * time.Millisecond)
+			synctest.Wait()
+			if judgeReconnect {
+				wantID := "run-1"
+				base, after := int64(500), int64(len(payload))
+				if full {
+					wantID = "0123456789abcdef0123456789abcdef01234567"
+					base, after = 4711, int64(len(payload)-c.N)
+				} else if announced != "" {
+					wantID = announced
+				}
+				ps := m.Psyncs()
+				if len(ps) < 2 {
+					bad("no-reconnect", "the source connection was cut after the hand-off and the tool did not send a new PSYNC within 2.2 s")
+				} else if p := ps[1]; p.RunID != wantID || p.Offset != base+after+1 {
+					bad("reconnect-psync", fmt.Sprintf("after the hand-off (announced run id %s, offset %d, then %d bytes of commands) the reconnect sends PSYNC %s %d, expected PSYNC %s %d", wantID, base, after, p.RunID, p.Offset, wantID, base+after+1))
+				}
+			}
+			// tear down (a reconnect whose PSYNC fails waits 30 s before it dials again)
+			for i := 0; i < m.NumConns(); i++ {
+				m.Conn(i).(*memconn.Conn).Cut()
+			}
+			time.Sleep(1100 * time.Millisecond)
+			synctest.Wait()
+			if withReconnect {
+				time.Sleep(31 * time.Second)
+			} else {
+				time.Sleep(1100 * time.Millisecond)
+			}
 			synctest.Wait()
 			mu.Lock()
 			r := piper
